@@ -1,9 +1,23 @@
 import CwPlus.Model.Ics20
+import CwPlus.Lemmas.Ics20Env
 /-!
 # C18 — cw20-ics20: the token allow-list is governance-only and only ever loosens
 
 Theorems over the model `CwPlus.Ics20` (state machine + world dispatch); histories are arbitrary
 lists of ops (`run`), failed transactions roll back.
+
+## Environment assumptions (`structure EnvAssumptions`, Lemmas/Ics20Env.lean)
+
+* **E1 `hook_only_from_send`** — a real cw20 token calls `ExecuteMsg::Receive` only from its own `Send`.
+* **E2 `never_calls_itself`** — the ics20 contract is never the sender of a transfer.
+* **E3 `native_not_cw20`** — no native denomination has the form `cw20:…`.
+
+The model's `World.exec` refuses transactions violating E1 / E2.  **None of C18's statements depends on
+E1–E3**: `allow_monotone_unguarded`, `allow_admin_only_unguarded` and `admin_never_cleared_unguarded`
+prove the history-level clauses over the *unguarded* semantics (`World.execRaw` / `runRaw`: no
+`impossible.*` checks, any account — the contract itself, real tokens — may send any transfer) without
+any environment hypothesis; the per-handler clauses (`cw20_transfer_gate`, `payout_gas_limit_*`) are
+about the handlers, which are the same in both semantics.
 -/
 namespace CwPlus.Props.C18
 open CwPlus CwPlus.Ics20
@@ -609,6 +623,118 @@ theorem redeemable_stays (w : World) (ops : List (Block × Op)) {d : Denom} {tv 
 
 
 
+/-! ## Independence from the environment assumptions: the unguarded semantics -/
+
+/-- A successful transaction of the unguarded semantics is either a transaction of the model or one of
+the three transfer transactions, which leave the governance fields alone whoever sends them. -/
+theorem execRaw_cases {w w' : World} {blk : Block} {op : Op} {o : Outcome} (h : w.execRaw blk op = .ok (w', o)) :
+    w.exec blk op = .ok (w', o) ∨
+    (((∃ snd funds msg, op = .transferNative snd funds msg) ∨ (∃ snd token amt msg, op = .sendCw20 snd token amt msg) ∨
+      (∃ snd funds sender amt msg, op = .hook snd funds sender amt msg)) ∧ SameGov w.st w'.st) := by
+  cases op with
+  | transferNative snd funds msg =>
+    right
+    refine ⟨Or.inl ⟨snd, funds, msg, rfl⟩, ?_⟩
+    simp [World.execRaw] at h
+    obtain ⟨w1, hw1, s, out, hs, rfl, _⟩ := h
+    have e : w1.st = w.st := by
+      split at hw1
+      · split at hw1
+        · simp at hw1
+        · split at hw1
+          · rename_i hb; simp at hw1; subst hw1; exact bankSend_st hb
+          · simp at hw1
+      · simp at hw1; subst hw1; rfl
+      · simp at hw1
+    have := execTransferNative_gov hs
+    rw [e] at this; exact this
+  | sendCw20 snd token amt msg =>
+    right
+    refine ⟨Or.inr (Or.inl ⟨snd, token, amt, msg, rfl⟩), ?_⟩
+    simp [World.execRaw] at h
+    obtain ⟨_, w1, hw1, s, out, hs, rfl, _⟩ := h
+    have e : w1.st = w.st := by
+      split at hw1
+      · rename_i hb; simp at hw1; subst hw1; exact tokSend_st hb
+      · simp at hw1
+    have := execReceive_gov hs
+    rw [e] at this; exact this
+  | hook snd funds sender amt msg =>
+    right
+    refine ⟨Or.inr (Or.inr ⟨snd, funds, sender, amt, msg, rfl⟩), ?_⟩
+    simp [World.execRaw] at h
+    obtain ⟨_, s, out, hs, rfl, _⟩ := h
+    exact execReceive_gov hs
+  | connect id v cv ord => exact Or.inl h
+  | allow snd c g => exact Or.inl h
+  | updateAdmin snd a => exact Or.inl h
+  | migrate g => exact Or.inl h
+  | recv p rv tv f => exact Or.inl h
+  | ack chan data ackOk sv tv f => exact Or.inl h
+  | timeout chan data sv tv f => exact Or.inl h
+
+theorem stepRaw_allow_le (w : World) (blk : Block) (op : Op) : AllowLe w.st.allow (w.stepRaw blk op).st.allow := by
+  unfold World.stepRaw
+  split
+  · rename_i w' o h
+    rcases execRaw_cases h with h | ⟨_, hg⟩
+    · exact exec_allow_le h
+    · rw [hg.1]; exact AllowLe.refl _
+  · exact AllowLe.refl _
+
+/-- **C18, allow_monotone without environment assumptions**: over every history of the unguarded semantics
+an allowed token is never removed and its gas limit never lowered. -/
+theorem allow_monotone_unguarded (w : World) (ops : List (Block × Op)) : AllowLe w.st.allow (runRaw w ops).st.allow := by
+  induction ops generalizing w with
+  | nil => exact AllowLe.refl _
+  | cons op rest ih => exact AllowLe.trans (stepRaw_allow_le w op.1 op.2) (ih (w.stepRaw op.1 op.2))
+
+/-- **C18, allow_admin_only without environment assumptions**: also under the unguarded semantics a
+transaction that changes the allow list is an `Allow` message sent by the current admin. -/
+theorem allow_admin_only_unguarded {w : World} {blk : Block} {op : Op} (h : (w.stepRaw blk op).st.allow ≠ w.st.allow) :
+    ∃ snd c g, op = .allow snd c g ∧ w.st.admin = some snd ∧ c.valid = true := by
+  have key : (w.stepRaw blk op).st.allow = (w.step blk op).st.allow := by
+    unfold World.stepRaw World.step
+    cases hr : w.execRaw blk op with
+    | error e =>
+      simp only
+      cases hx : w.exec blk op with
+      | error e' => rfl
+      | ok r =>
+        exfalso
+        have := execRaw_eq_exec (blk := blk) (exec_guard (w' := r.1) (o := r.2) hx)
+        rw [hr, hx] at this; cases this
+    | ok r =>
+      obtain ⟨w', o⟩ := r
+      simp only
+      rcases execRaw_cases hr with hx | ⟨hop, hg⟩
+      · rw [hx]
+      · cases hx : w.exec blk op with
+        | error e' => simp only; exact hg.1
+        | ok r' =>
+          have := execRaw_eq_exec (blk := blk) (exec_guard (w' := r'.1) (o := r'.2) hx)
+          rw [hr, hx] at this; cases this; rfl
+  rw [key] at h
+  exact allow_admin_only h
+
+/-- **C18, governance is never left vacant, without environment assumptions**. -/
+theorem admin_never_cleared_unguarded (w : World) (ops : List (Block × Op)) (h : w.st.admin.isSome) :
+    (runRaw w ops).st.admin.isSome := by
+  induction ops generalizing w with
+  | nil => exact h
+  | cons op rest ih =>
+    apply ih
+    show (w.stepRaw op.1 op.2).st.admin.isSome
+    unfold World.stepRaw
+    split
+    · rename_i w' o hr
+      rcases execRaw_cases hr with hx | ⟨_, hg⟩
+      · have : w' = w.step op.1 op.2 := by unfold World.step; rw [hx]
+        rw [this]
+        exact admin_never_cleared w [op] h
+      · rw [hg.2.1]; exact h
+    · exact h
+
 /-! ## Non-vacuity: a concrete world on which the hypotheses are satisfiable -/
 
 /-- gov = "gov", token "T1" allowed with limit 500, no default, channel-0 connected, "alice" owns 100 T1. -/
@@ -640,5 +766,12 @@ example : ackAndGas ((run w0 [(b0, .sendCw20 "alice" "T1" 40 (some ⟨"channel-0
       (.recv ⟨"transfer", "channel-10", "channel-0", some 15, some ("transfer", "channel-10", .cw20 "T1"), "alice", "bob"⟩ true true false))
     = some (some .success, some (some 500)) := by decide
 
+
+/-- the unguarded semantics really is laxer: a direct hook call by the real token `T1` is accepted by
+`execRaw`, refused by the model's `exec`; the allow list is untouched either way -/
+example : (w0.execRaw b0 (.hook "T1" [] ⟨true, "mallory"⟩ 5 (some ⟨"channel-0", "bob", none, none⟩))).isOk = true ∧
+    (w0.exec b0 (.hook "T1" [] ⟨true, "mallory"⟩ 5 (some ⟨"channel-0", "bob", none, none⟩))).isOk = false ∧
+    (runRaw w0 [(b0, .hook "T1" [] ⟨true, "mallory"⟩ 5 (some ⟨"channel-0", "bob", none, none⟩))]).st.allow = w0.st.allow := by
+  decide
 
 end CwPlus.Props.C18
